@@ -118,25 +118,59 @@ def is_z3v(x):
 
 
 def string_probe(fname, length=0, lib_so=None):
-    """native: call the string getter on a fresh model with a guarded buffer; 1 if a guard byte changed"""
+    """native: call the string getter with guarded buffers of several lengths (the witness length
+    first) on a fresh model and on a model that carries a problem and a warning message;
+    1 if a guard byte changed"""
     lib_so = lib_so or build.build_library()
     code = r'''
 import ctypes, sys
 lib = ctypes.CDLL(%r)
 lib.gm2calc_mssmnofv_new.restype = ctypes.c_void_p
-m = lib.gm2calc_mssmnofv_new()
-G = 4096
-buf = ctypes.create_string_buffer(b'\xAA' * (2 * G + %d), 2 * G + %d)
+V = ctypes.c_void_p
+def fresh():
+    return lib.gm2calc_mssmnofv_new()
+def troubled():
+    m = lib.gm2calc_mssmnofv_new()
+    D = ctypes.c_double
+    U = ctypes.c_uint
+    def call(n, *a):
+        f = getattr(lib, n); f.argtypes = [V] + [type(x) for x in a]; f(V(m), *a)
+    call('gm2calc_mssmnofv_set_alpha_MZ', D(0.0078)); call('gm2calc_mssmnofv_set_alpha_thompson', D(0.0073))
+    call('gm2calc_mssmnofv_set_g3', D(1.2)); call('gm2calc_mssmnofv_set_MW_pole', D(80.385))
+    call('gm2calc_mssmnofv_set_MZ_pole', D(91.1876)); call('gm2calc_mssmnofv_set_MM_pole', D(0.1056583715))
+    call('gm2calc_mssmnofv_set_MT_pole', D(173.34)); call('gm2calc_mssmnofv_set_MB_running', D(2.8))
+    call('gm2calc_mssmnofv_set_ML_pole', D(1.777)); call('gm2calc_mssmnofv_set_TB', D(10.0))
+    call('gm2calc_mssmnofv_set_Mu', D(350.0)); call('gm2calc_mssmnofv_set_MassB', D(150.0))
+    call('gm2calc_mssmnofv_set_MassWB', D(300.0)); call('gm2calc_mssmnofv_set_MassG', D(1000.0))
+    call('gm2calc_mssmnofv_set_MAh_pole', D(1500.0)); call('gm2calc_mssmnofv_set_scale', D(454.7))
+    for nm in ('ml2', 'me2', 'mq2', 'mu2', 'md2'):
+        for i in range(3):
+            call('gm2calc_mssmnofv_set_' + nm, U(i), U(i), D(-250000.0 if nm in ('ml2', 'me2') else 1e6))
+    lib.gm2calc_mssmnofv_calculate_masses.argtypes = [V]
+    lib.gm2calc_mssmnofv_calculate_masses(V(m))
+    return m
+bad = 0
 f = getattr(lib, %r)
-f.argtypes = [ctypes.c_void_p, ctypes.c_void_p, ctypes.c_uint]
-f(m, ctypes.addressof(buf) + G, %d)
-raw = buf.raw
-ok = all(b == 0xAA for b in raw[:G]) and all(b == 0xAA for b in raw[G + %d:])
-print('guards intact' if ok else 'GUARD BYTE OVERWRITTEN')
-sys.exit(0 if ok else 1)
-''' % (lib_so, length, length, fname, length, length)
+f.argtypes = [V, V, ctypes.c_uint]
+for mk in (fresh, troubled):
+    try:
+        m = mk()
+    except Exception as e:
+        continue
+    for length in [%d, 0, 1, 2, 3, 8, 16, 32, 33, 34, 64, 187, 188, 256]:
+        G = 4096
+        buf = ctypes.create_string_buffer(b"\xAA" * (2 * G + length), 2 * G + length)
+        f(V(m), V(ctypes.addressof(buf) + G), length)
+        raw = buf.raw
+        ok = all(b == 0xAA for b in raw[:G]) and all(b == 0xAA for b in raw[G + length:])
+        if not ok:
+            print("GUARD BYTE OVERWRITTEN for len=%%d on a %%s model" %% (length, mk.__name__))
+            bad = 1
+print("guards intact" if not bad else "violation")
+sys.exit(bad)
+''' % (lib_so, fname, length)
     r = subprocess.run(['python3-vt', '-c', code], capture_output=True, text=True)
-    print(r.stdout.strip(), r.stderr.strip()[-200:])
+    print(r.stdout.strip(), r.stderr.strip()[-300:])
     return 0 if r.returncode == 0 else 1
 
 
